@@ -37,6 +37,12 @@ def run(tier, corrupt=0):
         c.mismatch("sun events: %s at lat=%s lon=%s (1e-4 deg) day=%s zone=%s" % (m["what"], e.get("lat"), e.get("lon"), e.get("day"), e.get("zone")),
                    dict(e, what_failed=m["what"]))
     grid = [json.loads(l) for l in lines if json.loads(l)["what"] == "grid"]
+    # transparency: events whose times of day, read without wrapping, are not increasing (dusk after local midnight or dawn before
+    # it); the verdict reads the order on the physical time line (DESIGN.md appendix B)
+    wrapped = [g for g in grid if "local" in g and not (g["local"][0] < g["local"][1] < g["local"][2] < g["local"][3])]
+    c.setv("grid_events_with_an_event_on_the_other_side_of_local_midnight", len(wrapped))
+    if wrapped:
+        c.setv("example_event_across_local_midnight", {k: wrapped[0].get(k) for k in ("lat", "lon", "day", "zone", "local")})
     c.add("evaluations", len(lines))
     c.add("distinct_nontrivial", len({(e["lat"], e["lon"], e["day"]) for e in grid}))
     c.setv("events_by_kind", dict(kinds))
